@@ -338,6 +338,7 @@ def programs(tier, rng, style=0):
             tup([tup([lit(1), lit('a')]), tup([lit('a'), lit(1)])]), obj({'s': (union(lit('x'), lit('y'), lit('z')), False), 't': (union(lit('z'), lit('y')), True)}),
             obj({'a-b': (STRING, True), 'c d': (NUMBER, False), '1x': (BOOLEAN, True)}), obj({'a.b': (STRING, False)}, index=STRING),
             recursive_person_team(), shared_leaf(), shared_leaf(direct=False), recursive_forest(), arr(recursive_tree()), tup([recursive_tree(), recursive_tree()]),
+            obj({'id': (NUMBER, True), 'tag': (lit('a'), True)}, index=ANY), obj({'id': (NUMBER, True)}, index=union(NUMBER, STRING)),
             tup([]), tup([STRING], rest=NUMBER), tup([], rest=BOOLEAN), obj({}), obj({}, index=NUMBER), obj({'a': (STRING, False)}, index=union(STRING, NUMBER))]
     return out
 
